@@ -49,6 +49,17 @@ Theorem C06_L4_read_pmt : forall c pid items,
 Proof. exact read_pmt_ok. Qed.
 Print Assumptions C06_L4_read_pmt.
 
+(* ... and whatever follows the packets that carry the unit (the next repetition of the PMT, other programs, garbage,
+   a truncated packet) is irrelevant: the reader has returned *)
+Theorem C06_L4_read_pmt_then_anything : forall c pid items tail,
+  wf_carrier c -> sstreams (sec c) <> [] ->
+  Forall (wf_item pid) items ->
+  (exists n, concat (chunks items) = ser_unit c ++ repeatN 255 n) ->
+  cuts_ok c items ->
+  read_pmt (packetise pid items ++ tail) pid = Ok (sec_result (sec c)).
+Proof. exact read_pmt_then_anything. Qed.
+Print Assumptions C06_L4_read_pmt_then_anything.
+
 (* without preceding sections EVERY split is a packetisation: no condition on the cut points *)
 Theorem C06_L4_read_pmt_any_split : forall c pid items,
   wf_carrier c -> pre c = [] -> sstreams (sec c) <> [] -> Forall (wf_item pid) items ->
